@@ -831,7 +831,7 @@ int sbdf_va_write(sbdf_valuearray* handle, FILE* file)
 		/* just write the byte stream */
 		{
 			size_t len = sbdf_ba_get_len(*(void**)handle->object1->data);
-			if (fwrite(*(void**)handle->object1->data, 1, len, file) != len)
+			if (fwrite(*(void**)handle->object1->data, 1, len, file) != len || ferror(file))
 			{
 				return SBDF_ERROR_IO;
 			}
